@@ -16,6 +16,7 @@ Line-protocol driver for C18 (decimal amount strings <-> 18-decimal integers).
                            a<int> (AddFT), u<int> (SubFT), g (GetFT); one answer token per step:
                            s | a | u:<0|1>:<int|nil> | g:<int|nil>   (NILPANIC if Go would deref nil)
 
+  cfg <0|1> <0|1> <0|1>    switch Proposal 002 / 005 / 017 off or on for the following ops -> cfg
   xfer <int> <hex-string>  service.ChangeAssets, source holding <int>, one target, amount string
                            -> xfer <ok|fail> <src after> <dst after> <response, blanks as _>
   stake <u64>              Float64ToBigInt(float64(n))    -> ok <int> | PANIC
@@ -23,7 +24,7 @@ Line-protocol driver for C18 (decimal amount strings <-> 18-decimal integers).
   u64 <u64>                Uint64ToBigInt(n)              -> ok <int>
   stakearg <int>           ParseUint(BigIntToStrWithoutDot(n),10,0) -> ok <n> | err
   basen <nat> <base>       BigIntBase10toN(n, base)       -> s <string>   (2 <= base <= 16)
-  calldata <nat>           common.GenerateCallDataBigInt(n) -> s <string>
+  calldata <nat>           common.GenerateCallDataBigInt(n) -> s <string> arg-after=<n afterwards> (the Go loop zeroes its argument)
   size <hex-string> <d>    bit length of |strToBigInt(s, d)| -> bits <n> | err
 
 Strings travel as hex of their bytes (a byte b is the character with code b; the
@@ -157,6 +158,9 @@ def step (_ : Unit) (line : String) : Unit × String :=
     match n.toInt? with
     | some n => ((), showRes "err" (evmValue n))
     | none => ((), "bad-op")
+  | ["cfg", a, b, c] =>
+    -- fork flags (Proposal 002 / 005 / 017): the model is flag-free (Props/C18Gen.gen_fork_flag_reads)
+    if (a == "0" || a == "1") && (b == "0" || b == "1") && (c == "0" || c == "1") then ((), "cfg") else ((), "bad-op")
   | ["xfer", n, h] =>
     match n.toInt?, ofHex? h with
     | some n, some b =>
@@ -199,7 +203,7 @@ def step (_ : Unit) (line : String) : Unit × String :=
     | _, _ => ((), "bad-op")
   | ["calldata", n] =>
     match n.toNat? with
-    | some n => ((), showStr (callDataBigInt n))
+    | some n => ((), showStr (callDataBigInt n) ++ " arg-after=0")
     | none => ((), "bad-op")
   | ["size", h, d] =>
     match ofHex? h, d.toInt? with
